@@ -1,4 +1,4 @@
-import PeptVerif.Lemmas.CondenseMass
+import PeptVerif.Lemmas.CondenseLabel
 /-!
 # C18 — condensing modifications to mass shifts preserves the peptide
 
@@ -7,10 +7,12 @@ repairs in /repo (9295698, dc0999f); `condenseToMassAnn` is the annotation just 
 numbers written, `render` the annotation carrying them. Every mass is a parameter (`Env`), so the theorems hold for ANY
 residue and modification weights.
 
-`condense_mass` is proved for annotations without an isotope label (both `mass` calls of every piece then take the fast
-path). With a label the per-piece difference goes through the composition calculator and the statement needs the
-agreement of the two calculators (C03) as a hypothesis; that case rests on the correspondence and on the oracle of the
-harness (see `notes/C18.md`).
+`condense_mass` covers annotations without an isotope label (every `mass` call takes the fast path) for ANY weights.
+`condense_mass_label` covers a label in force: the per-piece difference then runs through the composition calculator, and
+the statement holds in every environment in which the two calculators agree on the parameters (`Coherent`: residue mass =
+mass of the residue composition, modification mass = mass of its composition or its plain shift, charge / ion-type term =
+mass of its composition — C03's subject; on the implementation these agree to ~1e-6 per named modification, which is the
+slack the oracle measures and allows).
 -/
 namespace Pept
 namespace C18
@@ -241,6 +243,72 @@ theorem condense_mass_k (E : Env) (a n : Annotation) (p : ℕ) (hiso : a.isotope
   refine ⟨c, s, x, hc, hs, hn', hx, ?_⟩
   rw [hcut c hc] at hb
   simpa using hb
+
+/-- **mass preserved with an isotope label in force** (labels expanded per residue, the terminal H / OH shift written once on
+the termini): in a coherent environment the mass of the output differs from the mass of the labelled input by at most
+½·10⁻ᵖ per number written plus 10⁻⁶ per nonzero quantity below the cut-off (residue totals, the two terminal label shifts). -/
+theorem condense_mass_label (E : Env) (hc : Coherent E) (a n : Annotation) (p : ℕ) (m0 : Mod) (L : List Mod) (lm : LabelMap)
+    (hiso : a.isotope = some (m0 :: L)) (hl : parseIsotopeMods E.knownLabel (m0 :: L) = .ok lm) (hr : InRange a)
+    (hn : ∀ i : ℤ, E.mu (.int i) = i) (h : condenseToMassAnn E a p = .ok n) :
+    ∃ c s x, condenseStatic a = .ok c ∧ shiftsOf E c p = .ok s ∧ n = render c s p ∧ massOf E a = .ok x ∧
+      |outMass E c s p - x| ≤ (writtenL c s : ℚ) * halfUlp p + (droppedL E lm c : ℚ) * threshold := by
+  obtain ⟨c, s, hcd, hs, hn'⟩ := condenseToMassAnn_eq E a n p h
+  have hciso : c.isotope = some (m0 :: L) := by
+    have := condenseStatic_isotope a c (some (m0 :: L)) hcd
+    have ha : ({ a with isotope := some (m0 :: L) } : Annotation) = a := by cases a; simp_all
+    rw [ha, hcd] at this
+    have := Except.ok.inj this
+    rw [this]
+  have hst := condenseStatic_static a c hcd
+  obtain ⟨x, hx, hb⟩ := outMass_err_label E hc c p s m0 L lm hst hciso hl (inRange_condense a c hcd hr) hn hs
+  have hxa : massOf E a = .ok x := by
+    have h1 : massOf E a = massLabel E a := by simp [massOf, hiso]
+    have h2 : massOf E c = massLabel E c := by simp [massOf, hciso]
+    have h3 : massLabel E c = massLabel E a := by
+      unfold massLabel compMassOf
+      rw [condenseStatic_idem a c hcd, hcd]
+    rw [h1, ← h3, ← h2]; exact hx
+  exact ⟨c, s, x, hcd, hs, hn', hxa, hb⟩
+
+/-- a coherent environment exists (so `condense_mass_label` is not vacuous): one residue type `C2` weighing 2·50, water
+`H2O` = H + OH weighing 18, integer modifications as plain shifts, every named modification as one carbon -/
+def exCoh : Env :=
+  { res := fun _ => 100, mu := fun v => match v with | .int i => i | .str _ => 50 | .flt _ => 0, adj := 18,
+    aaComp := fun _ => [(['C'], 2)],
+    modRes := fun v => match v with | .int i => .delta i | .str _ => .comp [(['C'], 1)] | .flt _ => .delta 0,
+    ionAdj := [(['H'], 2), (['O'], 1)], chargeComp := [],
+    em := fun e => if e = ['C'] then 50 else if e = ['1', '3', 'C'] then 51 else if e = ['O'] then 16 else
+      if e = ['1', '8', 'O'] then 18 else 1,
+    ntermComp := [(['H'], 1)], ctermComp := [(['O'], 1), (['H'], 1)] }
+
+theorem exCoh_coherent : Coherent exCoh := by
+  refine ⟨fun _ => by simp [exCoh, chemMass]; norm_num, by simp [exCoh, chemMass]; norm_num, ?_, ?_, fun _ => by simp [exCoh, NodupKeys],
+    by simp [exCoh, NodupKeys], by simp [exCoh, NodupKeys], by simp [exCoh, NodupKeys], by simp [exCoh, NodupKeys], rfl, rfl, rfl, ?_⟩
+  · intro m
+    obtain ⟨v, k⟩ := m
+    cases v with
+    | int i => simp [modMass, compOf, deltaOf, exCoh, chemMass]
+    | flt r => simp [modMass, compOf, deltaOf, exCoh, chemMass]
+    | str r => simp [modMass, compOf, deltaOf, exCoh, chemMass, compScale]; ring
+  · intro x
+    simp only [exCoh, compGet]
+    by_cases h1 : ['H'] = x
+    · subst h1; simp; norm_num
+    · by_cases h2 : ['O'] = x
+      · subst h2; simp
+      · simp [h1, h2]
+  · intro m
+    obtain ⟨v, k⟩ := m
+    cases v <;> simp [isBad, exCoh]
+
+/-- `<18O>[10]-PP[Acetyl]` in `exCoh` at precision 2: the residues have no O, the C-terminal OH gets +2, `[10]-` stays an int -/
+def exLab : Annotation :=
+  { seq := "PP".toList, isotope := some [⟨.str "18O".toList, 1⟩], nterm := some [⟨.int 10, 1⟩], internal := some [(1, [⟨.str "Acetyl".toList, 1⟩])] }
+
+example : condenseToMassAnn exCoh exLab 2 =
+    .ok { seq := "PP".toList, nterm := some [⟨.int 10, 1⟩], cterm := some [⟨.flt "2.0".toList, 1⟩], internal := some [(1, [⟨.flt "50.0".toList, 1⟩])] } := by
+  decide +kernel
+example : massOf exCoh exLab = .ok 280 := by decide +kernel
 
 /-- the cut-off term of `condense_mass` is really there on the code as it is: a residue carrying +0.0000005 gets no shift
 at any precision, so the output is lighter by 5·10⁻⁷ although nothing was rounded (`k = 0`) -/
